@@ -308,6 +308,8 @@ class BaseSetup:
         <https://docs.scipy.org/doc/scipy/reference/generated/scipy.signal.detrend.html>`_.
         """
         axis = kwargs.pop("axis", 0)
+        # never detrend in place: `data` may be the array passed in by the user
+        kwargs["overwrite_data"] = False
         return detrend(data, axis=axis, **kwargs)
 
     # method to detrend data
